@@ -206,6 +206,15 @@ def run(ctx):
                 dflt = origin(f, c.args[1])
                 if dflt[0] == "agg" and dflt[1].endswith("Option::None") and mentions_deep(F, origin(f, c.args[2]), "decode_vec") and mentions_deep(F, origin(f, c.args[2]), "ok"):
                     ok = True
+            # `opt.and_then(|b| decode_vec(b).ok())` is the same function as `opt.map_or(None, |b| decode_vec(b).ok())`
+            if (c.method or "") == "and_then" and "Option" in (c.target_path or "") and not f.is_cleanup(c.bb):
+                if mentions_deep(F, origin(f, c.args[1]), "decode_vec") and mentions_deep(F, origin(f, c.args[1]), "ok"):
+                    ok = True
+        # in either spelling the decode error must not be propagated with `?` anywhere in get
+        for g in [f] + list(F.descendants(f.id)):
+            for c in g.calls():
+                if (c.target_path or "").endswith("Try::branch") and not g.is_cleanup(c.bb) and mentions(origin(g, c.args[0]), "decode_vec"):
+                    ok = False
         R.ob(ok, "GUARD", f.where(), "GUARD|ConfigDatabase::get|undecodable", "an undecodable or missing row no longer reads as absent",
              sample={"rule": "GUARD", "fn": "ConfigDatabase::get", "row": "missing/undecodable => None"})
     # 5. who may write config keys
